@@ -271,3 +271,45 @@ fn c15_access_constructor_then_insert_and_find() {
     kani::cover!(n == 3 && h == 3, "non power of two table count reachable");
     std::mem::forget(access);
 }
+
+// ---- thorough tier: the same routing contracts with up to 32 sub-tables --------------------------------------------------------
+
+fn access_with_32(n: usize) -> TranspositionTableAccess {
+    let mut tables = Vec::with_capacity(32);
+    let mut i = 0;
+    while i < 32 {
+        if i < n {
+            tables.push(RwLock::new(TranspositionTable { buckets: Vec::new(), used_slots: i }));
+        }
+        i += 1;
+    }
+    TranspositionTableAccess { tables }
+}
+
+#[kani::proof]
+#[kani::unwind(34)]
+#[kani::stub(std::vec::Vec::push, stub_vec_push)]
+#[kani::stub(TranspositionTable::insert, stub_table_insert)]
+#[kani::stub(TranspositionTable::find, stub_table_find)]
+fn c15_access_routes_by_key_32() {
+    let n: usize = kani::any();
+    kani::assume(1 <= n && n <= 32);
+    let access = access_with_32(n);
+    let h: Hash = kani::any();
+    let e = any_entry();
+    access.insert(h, e);
+    unsafe {
+        assert!(CALLS[0] == 1 && ARGS[0] == (h % (n as u64)) && ARGS[1] == h);
+        let got = (*std::ptr::addr_of!(ENTRY_IN))[0];
+        assert!(got.is_some() && entry_eq(&got.unwrap(), &e));
+    }
+    let k: Hash = kani::any();
+    let r = access.find(k);
+    unsafe {
+        assert!(CALLS[1] == 1 && ARGS[2] == (k % (n as u64)) && ARGS[3] == k);
+    }
+    assert!(r.is_none());
+    kani::cover!(n == 32 && h % 32 == 31, "last of 32 sub-tables reachable");
+    kani::cover!(n == 24, "non power of two table count reachable");
+    std::mem::forget(access);
+}
